@@ -277,11 +277,28 @@ def chain_clause(rnd: random.Random, grammar: str, i: int) -> str:
     return rnd.choice(["!=", ">=", "<", "=="]) + f"{i % 5}.{i}"
 
 
-def long_chain(rnd: random.Random, grammar: str, clauses: int) -> tuple[str, str]:
-    sep = rnd.choice(CHAIN_SEPS[grammar])
-    one = rnd.random() < 0.5
-    c0 = chain_clause(rnd, grammar, 0)
-    parts = [c0 if one and rnd.random() < 0.3 else chain_clause(rnd, grammar, i) for i in range(clauses)]
+UNIFORM = {
+    "vconstraint": [("!=1.%d", ","), ("!=1.%d", ", "), ("1.%d", " || "), ("!=%d.*", ","), (">=1.%d", ",")],
+    "generic": [("!=a%d", ","), ("a%d", " || "), ("'a%d' not in", ", ")],
+    "marker": [('python_version == "3.%d"', " or "), ('python_version != "3.%d"', " and "), ('os_name == "a%d"', " or "),
+               ('os_name != "a%d"', " and "), ('python_full_version != "3.%d.1"', " and "), ('extra == "e%d"', " or ")],
+}
+MAX_CHARS = 12000     # "very long inputs" are about 10^4 characters: chains are cut to this length
+
+
+def long_chain(rnd: random.Random, grammar: str, clauses: int, uniform: bool = False) -> tuple[str, str]:
+    """`clauses` clauses joined by one separator (cut to MAX_CHARS); `uniform`: one operator, pairwise distinct values — the shape
+    on which the constraint / marker algebra does the most work per clause (nothing merges, nothing becomes empty)"""
+    if uniform and grammar in UNIFORM:
+        pat, sep = rnd.choice(UNIFORM[grammar])
+        parts = [pat % i for i in range(clauses)]
+    else:
+        sep = rnd.choice(CHAIN_SEPS[grammar])
+        one = rnd.random() < 0.5
+        c0 = chain_clause(rnd, grammar, 0)
+        parts = [c0 if one and rnd.random() < 0.3 else chain_clause(rnd, grammar, i) for i in range(clauses)]
+    while parts and sum(len(x) + len(sep) for x in parts) > MAX_CHARS:
+        parts = parts[: len(parts) * 9 // 10]
     s = sep.join(parts)
     if grammar == "version":
         s = "1" + rnd.choice([".", "+", "!"]) + s
@@ -292,13 +309,13 @@ def long_chain(rnd: random.Random, grammar: str, clauses: int) -> tuple[str, str
         elif k < 0.7:
             s = "foo[" + ",".join("e%d" % i for i in range(clauses)) + "]"
         else:
-            s = "foo ; " + long_chain(rnd, "marker", clauses)[0]
+            s = "foo ; " + long_chain(rnd, "marker", clauses, uniform)[0]
     return s, "long-chain"
 
 
-def long_nest(rnd: random.Random, grammar: str, depth: int, big: bool = False) -> tuple[str, str]:
+def long_nest(rnd: random.Random, grammar: str, depth: int, big: bool = False, alternate: bool = False) -> tuple[str, str]:
     inner = 'os_name == "a"' if rnd.random() < 0.6 else gen_marker.marker(rnd, max_leaves=2)
-    k = rnd.random()
+    k = rnd.random() if not alternate else 0.9
     if k < 0.6:
         m = "(" * depth + inner + ")" * depth
     elif k < 0.8:
